@@ -303,6 +303,27 @@ func (f *FnEnc) dominatesGuard(g, r string) bool {
 	return gb.Dominates(rb)
 }
 
+// readOnlyFreeVar: every use of the captured variable's cell in the closure
+// is a load.
+func readOnlyFreeVar(fv *ssa.FreeVar) bool {
+	refs := fv.Referrers()
+	if refs == nil {
+		return true
+	}
+	for _, r := range *refs {
+		switch r := r.(type) {
+		case *ssa.UnOp:
+			if r.Op != token.MUL {
+				return false
+			}
+		case *ssa.DebugRef:
+		default:
+			return false
+		}
+	}
+	return true
+}
+
 // toIdx converts an integer value to a 64-bit index term.
 func (f *FnEnc) toIdx(v Val) string {
 	w := intWidth(v.T)
@@ -313,6 +334,16 @@ func (f *FnEnc) unop(fr *Frame, st *State, R string, in *ssa.UnOp) {
 	x := f.val(fr, in.X)
 	switch in.Op {
 	case token.MUL: // load
+		// a captured variable that the closure under contract only reads:
+		// its value is the entry value throughout (nothing the closure
+		// calls can reach the cell except the enclosing function, which is
+		// not running; see also the note on go statements)
+		if fv, ok := in.X.(*ssa.FreeVar); ok && fr == f.top {
+			if v, ok := f.params[fv.Name()]; ok && readOnlyFreeVar(fv) && derefType(fv.Type()) != nil && len(v.L) == f.l.cells(in.Type()) {
+				f.setVal(fr, in, Val{T: in.Type(), L: v.L})
+				return
+			}
+		}
 		if x.Loc != nil {
 			a := x.Loc.A.(*ssa.Alloc)
 			n := f.l.cells(x.Loc.T)
